@@ -5,6 +5,7 @@ import CMacVerif.Lemmas.AtomicsCtr
 import CMacVerif.Lemmas.AtomicsRun
 import CMacVerif.Lemmas.AtomicsHydro
 import CMacVerif.Lemmas.AtomicsMax
+import CMacVerif.Lemmas.AtomicsTask
 /-!
 # C08 — shared scheduler containers never give one slot or task to two owners
 
@@ -736,5 +737,97 @@ example :
     let s := run { size := 1, cap := 200, deps := fun _ => (none, none) }
       (init [[.maxC 0 5], [.maxC 0 9]]) [0, 0, 1, 1, 1, 0, 0, 0]
     s.mem.mx 0 = 9 ∧ s.threads.all Thread.finished = true := by decide
+
+/-! ## Class-level contract of `Task`: the dependency setters and `lock_dependency`
+
+`setupDeps ops` = `_dependency[0..1]` of a fresh `Task` after the setter calls `ops`
+(`Task::set_dependency`, `Task::set_extra_dependency` as they are in src/Task.hpp: the duplicate
+check of `set_extra_dependency` compares with the first dependency *as it is at that moment*). -/
+
+/-- first dependency first (the order every call site uses): the duplicate is dropped, the
+resulting lock set is the set of declared resources -/
+theorem setup_first_then_extra (a b : Nat) :
+    setupDeps [.dep a] = (some a, none) ∧
+    setupDeps [.dep a, .extra b] = (some a, if b = a then none else some b) ∧
+    setupDeps [.dep a, .extra b] = mkDeps (some a) (some b) := by
+  refine ⟨rfl, ?_, ?_⟩ <;> by_cases h : b = a <;> simp [setupDeps, applySet, mkDeps, h]
+
+/-- the other order: nothing is dropped — with `a = b` the task declares the same lock twice;
+`set_extra_dependency` alone leaves the first dependency null -/
+theorem setup_extra_then_first (a b : Nat) :
+    setupDeps [.extra b, .dep a] = (some a, some b) ∧ setupDeps [.extra b] = (none, some b) := by
+  constructor <;> simp [setupDeps, applySet]
+
+/-- for a task set up first-dependency-first, "can be locked" is exactly "all declared resources
+are free" -/
+theorem conforming_lockable_iff (cfg : Cfg) (locks : LockId → Bool) (t a b : Nat)
+    (h : cfg.deps t = setupDeps [.dep a, .extra b]) :
+    Lockable cfg locks t ↔ (locks (.dep a) = false ∧ locks (.dep b) = false) := by
+  unfold Lockable
+  rw [h, (setup_first_then_extra a b).2.1]
+  by_cases hab : b = a
+  · subst hab; simp
+  · have : a ≠ b := fun e => hab e.symm
+    simp [hab, this]
+
+/-- **contract of set_dependency / set_extra_dependency + lock_dependency**: a fresh task gets the
+resources `a` and `b` through the two setters in either order; all locks are free; the direct
+`lock_dependency()` (nobody interferes) succeeds **iff** the first dependency was set first or the
+two resources differ.  (`tryAll` is what `lock_dependency` returns: `lock_dependency_solo`.) -/
+theorem task_setup_contract (cfg : Cfg) (t a b : Nat) (ops : List SetOp)
+    (hops : ops = [.dep a, .extra b] ∨ ops = [.extra b, .dep a]) (h : cfg.deps t = setupDeps ops) :
+    tryAll cfg (fun _ => false) t = true ↔ (ops = [.dep a, .extra b] ∨ a ≠ b) := by
+  rcases hops with rfl | rfl
+  · rw [tryAll, h, (setup_first_then_extra a b).2.1]
+    by_cases hab : b = a <;> simp [hab, upd_apply]
+  · rw [tryAll, h, (setup_extra_then_first a b).1]
+    by_cases hab : a = b
+    · subst hab; simp [upd_apply]
+    · have : ¬ b = a := fun e => hab e.symm
+      simp [hab, this, upd_apply]
+
+/-- what the direct call does, in full (sequential semantics of `Task::lock_dependency`) -/
+theorem lock_dependency_returns (cfg : Cfg) (s : State) (tid t : Nat) (th : Thread)
+    (hth : s.threads[tid]? = some th) (hpc : th.pc = .tlStart .alone t) :
+    Solo cfg tid s (fun s' => ∃ th', s'.threads[tid]? = some th' ∧ th'.pc = .idle ∧
+      th'.res = .taskLocked t (tryAll cfg s.mem.locks t) :: th.res ∧
+      (∀ L, s'.mem.locks L = if tryAll cfg s.mem.locks t then lockedBy cfg s.mem.locks t L else s.mem.locks L) ∧
+      th'.tasks = if tryAll cfg s.mem.locks t then t :: th.tasks else th.tasks) :=
+  lock_dependency_solo cfg s tid t th hth hpc
+
+/-- **a task that declares the same lock twice is never handed out** — by no pop and no direct
+`lock_dependency`, for every number of threads and every schedule, also when nobody holds its
+resource: the clause "when none of its resources is held by anyone the task can be handed out"
+fails for `set_extra_dependency(x); set_dependency(x)` (the order of seeded change C08r4b; no call
+site of the unchanged tree uses it). -/
+theorem duplicate_never_handed_out (cfg : Cfg) (progs : List (List Cmd)) (sched : List Nat) (t a : Nat)
+    (hd : cfg.deps t = (some a, some a)) : t ∉ running cfg (run cfg (init progs) sched) := by
+  intro hmem
+  unfold running at hmem
+  obtain ⟨th, hth, ht⟩ := List.mem_flatMap.mp hmem
+  have h1 : depsHold cfg t (.dep a) ≤ runHold cfg (.dep a) th := le_hsum cfg (.dep a) _ t ht
+  obtain ⟨k, hk, hke⟩ := List.mem_iff_getElem.mp hth
+  have h2 := le_sumT (runHold cfg (.dep a)) _ k th (by rw [List.getElem?_eq_getElem hk, hke])
+  have h3 := (running_holds_locks cfg progs sched (.dep a)).1
+  have h4 : depsHold cfg t (.dep a) = 2 := by simp [depsHold, hd, ind]
+  omega
+
+/-- `set_extra_dependency` without a first dependency: `lock_dependency` returns true and locks
+nothing — the declared resource is not held (second candidate; no call site does this) -/
+theorem extra_only_locks_nothing (cfg : Cfg) (locks : LockId → Bool) (t b : Nat)
+    (h : cfg.deps t = setupDeps [.extra b]) :
+    tryAll cfg locks t = true ∧ lockedBy cfg locks t = locks ∧ lockset cfg t = [] := by
+  rw [(setup_extra_then_first 0 b).2] at h
+  simp [tryAll, lockedBy, lockset, h]
+
+/-- non-vacuity: `set_extra_dependency(0); set_dependency(0)`, lock 0 free, `lock_dependency`
+takes lock 0, fails on the second attempt for the same lock, rolls back and returns false -/
+example :
+    let cfg : Cfg := { size := 1, cap := 200, deps := fun _ => setupDeps [.extra 0, .dep 0] }
+    let s := run cfg (init [[.lockTask 0]]) (List.replicate 5 0)
+    s.threads.map (·.res) = [[.taskLocked 0 false]] ∧ s.mem.locks (.dep 0) = false ∧
+    (let cfg' : Cfg := { size := 1, cap := 200, deps := fun _ => setupDeps [.dep 0, .extra 0] }
+     (run cfg' (init [[.lockTask 0]]) (List.replicate 3 0)).threads.map (·.res) = [[.taskLocked 0 true]]) := by
+  decide
 
 end CMacVerif.Atomics
